@@ -22,7 +22,7 @@ REPO_CFLAGS = ["-std=gnu99", "-DNDEBUG", "-g", "-O1", "-fno-builtin", "-fno-omit
                "-I%s/src/internal" % REPO, "-I%s/include/qlibc" % REPO, "-I%s/include" % REPO]
 HARN_CFLAGS = ["-std=gnu11", "-D_GNU_SOURCE", "-g", "-O1", "-fno-builtin", "-fno-omit-frame-pointer", "-Wall",
                "-Wno-unused-function", "-Wno-unused-variable", "-Wno-unused-but-set-variable",
-               "-I%s/src/internal" % REPO, "-I%s/include/qlibc" % REPO, "-I%s/include" % REPO, "-I%s/common" % ENG]
+               "-I%s/src/internal" % REPO, "-I%s/include/qlibc" % REPO, "-I%s/include" % REPO, "-I%s/common" % ENG, "-I%s/seqmc" % ENG]
 FLAVOURS = {
     "asan": ["-fsanitize=address,undefined", "-fsanitize-recover=address", "-fno-sanitize-recover=undefined",
              "-fno-sanitize=alignment,nonnull-attribute", "-DVC_ASAN=1"],
